@@ -21,8 +21,8 @@ MEMPOOL_HARNESSES = [
                      'REAL MemPool: generatePopData connects every in-flight block whose missing context has been submitted (any submission order, forks, orphans) and returns exactly the connectable context',
                      'REAL MemPool (C12): generatePopData leaves the ALT/VBK/BTC views unchanged, respects the limits, and a next ALT block carrying exactly this PopData connects and activates',
                      'REAL MemPool: removeAll forgets what went into a block; it never reappears in later generatePopData'],
-     'rungs': {'quick': [{'defines': ['NSUB=3'], 'bound': 'VBK blocks from a miner tree (chain of 4, a fork of 2) submitted in every order of 3 submissions (with repeats), then generatePopData, block acceptance, removeAll, generatePopData', 'timeout': 280}],
-               'thorough': [{'defines': ['NSUB=5'], 'bound': 'every sequence of 5 submissions', 'timeout': 3000}, {'defines': ['NSUB=4'], 'bound': 'every sequence of 4 submissions', 'timeout': 900}]}},
+     'rungs': {'quick': [{'defines': ['NSUB=4'], 'bound': 'VBK blocks from a miner tree (chain of 4, a fork of 2) submitted in every order of 4 submissions (with repeats), then generatePopData, block acceptance, removeAll, generatePopData', 'timeout': 280}],
+               'thorough': [{'defines': ['NSUB=6'], 'bound': 'every sequence of 6 submissions', 'timeout': 3000}, {'defines': ['NSUB=5'], 'bound': 'every sequence of 5 submissions', 'timeout': 900}]}},
     {'name': 'h_mempool_stale', 'src': 'real/h_mempool.cpp', 'entry': 'h_mempool', 'repo_srcs': srcsets_real.REAL, 'defines': ['MODE_STALE'], 'covers': [1], 'jobs': 2,
      'obligations': ['REAL MemPool::cleanUp on a pool holding 1..2 connected ATVs whose VBK block fell behind the old-blocks window: no freed memory is touched (engine use-after-free check), stale payloads are forgotten'],
      'rungs': {'quick': [{'bound': '1..2 connected ATVs on a VBK block 3 blocks behind the VBK tip, old-blocks window 1 (pool state constructed directly: what a successful submit<ATV> leaves)', 'timeout': 200}], 'thorough': [{'bound': 'as quick', 'timeout': 400}]}},
